@@ -27,6 +27,8 @@ def run(tier, replay=None):
         out.add_tlc(bres[1])
         bl = [c["text"] for c in bres[0]]
         texts += bl if tier == "thorough" else [t for i, t in enumerate(bl) if i % 6 == seed() % 6]
+        cres = run_tlc("Gen_Conform", cfg="Gen_Conform", simulate=(30 if tier == "quick" else 600), depth=10, workers=4, seed_=seed() * 59 + 4)
+        texts += list(dict.fromkeys(c["text"] for c in cres.tagged("CASE"))) + corpus.SHARED_PROGRAMS
         texts += list(corpus.all_programs().values()) + corpus.VALUE_PROGRAMS + corpus.LOOP_PROGRAMS
         texts = list(dict.fromkeys(texts))
     hc = [{"id": i + 1, "mode": "stable", "text": t, "histories": hists} for i, t in enumerate(texts)]
